@@ -6,6 +6,7 @@
 //! `<id>` or `<id>~<k>`: the value is built deterministically from the integer id, k selects another
 //! representation of the SAME value where the crate has one (decimal scale, time-zone offset, JSON key
 //! insertion order). show() recomputes the token from the value alone (inverse of the construction).
+//! serde_json::Value additionally accepts `s<hex>`: the JSON string with that content.
 //! Option<T>: `N` or the token of T. Vec<T>: `[tok,tok]`.
 //!
 //! Value term: `Variant:N` | `Variant:<token>` | `Array:Elem:N` | `Array:Elem:[term,term]`.
@@ -215,10 +216,31 @@ pub const JSON_POOL: &[(&str, &str)] = &[
     ("-9223372036854775808", "-9223372036854775808"),
     ("1e300", "1e300"),
     ("{\"\":{\"\":{}}}", "{\"\":{\"\":{}}}"),
+    // appended for the statement-level value pool (tools/richvalues.py); ids 0..22 are used by C12 / C18 and
+    // must keep their numbers: quotes, backslashes, placeholder marks, non-ASCII inside JSON strings
+    ("\"it's\"", "\"it's\""),
+    ("\"say \\\"hi\\\"\"", "\"say \\\"hi\\\"\""),
+    ("\"back\\\\slash\\\\\"", "\"back\\\\slash\\\\\""),
+    ("\"\\\\'\"", "\"\\\\'\""),
+    ("{\"k'\\\"\":\"? $1 ?? $$\"}", "{\"k'\\\"\":\"? $1 ?? $$\"}"),
+    ("[\"\u{e9}\u{4e2d}\u{1f600}\",\"\\u0000\\u001a\\t\"]", "[\"\u{e9}\u{4e2d}\u{1f600}\",\"\\u0000\\u001a\\t\"]"),
+    ("{\"a\":\"x\\\\\",\"b\":\"' OR 1=1 --\"}", "{\"b\":\"' OR 1=1 --\",\"a\":\"x\\\\\"}"),
+    ("\"%_\\\\%\"", "\"%_\\\\%\""),
+    // appended for C18 (ids 31..35): documents that differ only in the sign of a float zero - equal as f64,
+    // different as text; equality and hashing of Value::Json must treat them alike
+    ("0.0", "0.0"),
+    ("[0.0]", "[0.0]"),
+    ("[-0.0]", "[-0.0]"),
+    ("{\"z\":0.0}", "{\"z\":0.0}"),
+    ("{\"z\":-0.0}", "{\"z\":-0.0}"),
 ];
 
 impl Pay for serde_json::Value {
     fn parse(tok: &str) -> Self {
+        // `s<hex>`: the JSON string with that content (any text; used by C03 for the Json arm)
+        if let Some(h) = tok.strip_prefix('s') {
+            return serde_json::Value::String(String::parse(h));
+        }
         let (id, k) = split_id(tok);
         let e = JSON_POOL[id as usize];
         serde_json::from_str(if k == 0 { e.0 } else { e.1 }).expect("json pool entry")
